@@ -262,6 +262,51 @@ def run(ck: Check) -> int:
         sr.distinct = 36
         sr.note = s_empty.__doc__.replace('\n        ', ' ')
     ck.search('empty-pattern', s_empty)
+
+    def s_mb_hist(sr):
+        # MATCHBASE in a history that mixes the two separator styles: each call is judged by its own rules whatever was compiled before
+        # (added after seeded change C02i: the regex of the implicit `**/` prefix was memoised under a key without the separator style, so
+        # after a FORCEWIN MATCHBASE compile `globmatch('dir\\b.txt', 'b.txt', MATCHBASE|FORCEUNIX)` was True)
+        sr.note = ('slash-less patterns under MATCHBASE, alternately with FORCEWIN and FORCEUNIX (± DOTGLOB, REALPATH-free), on paths whose last '
+                   'separator is `/` or a backslash: Unix rules — the backslash is a name character; Windows rules — it is a separator; both orders, '
+                   'globmatch / globfilter / compile().match / translate+re')
+        import re as _re
+        pats = ['b.txt', '*.txt', 'b*', '?.txt']
+        paths = ['dir/b.txt', 'dir\\b.txt', 'b.txt', 'x/dir\\b.txt', 'dir\\sub/b.txt', 'dir/sub\\b.txt', 'dir\\c.md', 'dir/c.md']
+
+        def want(path, pat, win):
+            base = _re.split(r'[\\/]' if win else r'/', path)[-1]
+            rx = _re.escape(pat).replace('\\*', '[^/\\\\]*' if win else '[^/]*').replace('\\?', '[^/\\\\]' if win else '[^/]')
+            return _re.fullmatch(rx, base, _re.S | (_re.I if win else 0)) is not None
+        for rnd in range(2):
+            for order in ((True, False), (False, True), (True, True, False), (False, False, True)):
+                for extra in (0, G.D):
+                    for win in order:
+                        fl = G.MATCHBASE | extra | (G.FORCEWIN if win else G.FORCEUNIX)
+                        for pat in pats:
+                            sr.evaluations += 1
+                            api = ('globmatch', 'globfilter', 'compile', 'translate')[sr.evaluations % 4]
+                            if api == 'globmatch':
+                                got = [bool(G.globmatch(q, pat, flags=fl)) for q in paths]
+                            elif api == 'globfilter':
+                                keep = set(G.globfilter(paths, pat, flags=fl))
+                                got = [q in keep for q in paths]
+                            elif api == 'compile':
+                                m_ = G.compile(pat, flags=fl)
+                                got = [bool(m_.match(q)) for q in paths]
+                            else:
+                                pos, neg = G.translate(pat, flags=fl)
+                                got = [any(_re.fullmatch(r_, q) for r_ in pos) and not any(_re.fullmatch(r_, q) for r_ in neg) for q in paths]
+                            exp = [want(q, pat, win) for q in paths]
+                            if got != exp:
+                                bad = [q for q, a, b in zip(paths, exp, got) if a != b]
+                                ck.report(Failing(f'{api}: MATCHBASE pattern {pat!r} under {"Windows" if win else "Unix"} rules, asked after calls under the other rules: wrong on {bad[:3]}',
+                                                  {'api': 'glob.' + api, 'pattern': pat, 'flags': fl, 'paths': paths, 'history': ['FORCEWIN' if x else 'FORCEUNIX' for x in order]}, exp, got), None)
+                                sr.histogram['FAIL'] = sr.histogram.get('FAIL', 0) + 1
+                            else:
+                                sr.histogram['holds'] = sr.histogram.get('holds', 0) + 1
+        sr.distinct = len(pats) * 8
+    ck.search('matchbase-histories', s_mb_hist)
     if drv:
         drv.close()
     return ck.finish()
